@@ -9,7 +9,7 @@ LOG="$SD/confirm.log"; : > "$LOG"
 cd "$WT" || exit 2
 git checkout -q -- . ; git clean -fdq src test
 git apply "$SD/demo.diff" >>"$LOG" 2>&1 || { echo "$SD: demo.diff does not apply"; exit 1; }
-UNIT=$(git status --porcelain | grep -oE 'src/test/[A-Za-z0-9_]+\.cpp' | grep -v CMake | head -1)
+UNIT=$(git status --porcelain | grep -oE 'src/(wallet/)?test/[A-Za-z0-9_]+\.cpp' | grep -v CMake | head -1)
 FUNC=$(git status --porcelain | grep -oE 'test/functional/[A-Za-z0-9_]+\.py' | grep -v test_runner | head -1)
 build() { nice cmake --build build -j"$J" >>"$LOG" 2>&1; }
 rundemo() {
